@@ -222,7 +222,16 @@ func runRound(c *vkit.Case) {
 	go func() { wg.Wait(); close(registrarsDone) }()
 	close(start)
 
-	var stopTick atomic.Int64
+	var stopTick atomic.Int64 // the EARLIEST tick at which some StopAndWait call returned
+	recordStopReturn := func() {
+		t := rd.clock.Tick()
+		for {
+			cur := stopTick.Load()
+			if (cur != 0 && cur <= t) || stopTick.CompareAndSwap(cur, t) {
+				return
+			}
+		}
+	}
 	stop := func() {
 		rd.stopped.CompareAndSwap(0, rd.clock.Tick())
 		switch stopKind {
@@ -232,7 +241,7 @@ func runRound(c *vkit.Case) {
 			parentCancel()
 		}
 		grp.StopAndWait()
-		stopTick.Store(rd.clock.Tick())
+		recordStopReturn()
 	}
 	fail := func(sig, what string) {
 		c.Violation(sig, what, map[string]any{"round": describe(rd), "settle": settle, "stop_kind": stopKind, "stop_returned_at": stopTick.Load()})
@@ -333,8 +342,30 @@ func runRound(c *vkit.Case) {
 		for i := rnd.Intn(12); i > 0; i-- {
 			p.Do()
 		}
+		// Sometimes several goroutines stop the group at once: every StopAndWait that returns is a
+		// barrier of its own.
+		var extra sync.WaitGroup
+		if rnd.Bool(0.5) {
+			for k := rnd.Range(1, 3); k > 0; k-- {
+				wait := rnd.Bool(0.6)
+				ep := vkit.NewPerturber(rnd.Split(), 5, 0.6)
+				extra.Add(1)
+				go func() {
+					defer extra.Done()
+					ep.Do()
+					rd.stopped.CompareAndSwap(0, rd.clock.Tick())
+					if wait {
+						grp.StopAndWait()
+						recordStopReturn()
+					} else {
+						grp.Stop()
+					}
+				}()
+			}
+			r.Count("races", "rounds with several concurrent stoppers", 1)
+		}
 		stopDone := make(chan struct{})
-		go func() { stop(); close(stopDone) }()
+		go func() { stop(); extra.Wait(); close(stopDone) }()
 		if v, dump := vkit.Await(stopDone, vkit.AwaitOpts{Soft: 5 * time.Second, Gap: 300 * time.Millisecond, Hard: 60 * time.Second, Relevant: relevant}); v != vkit.AwaitDone {
 			if v == vkit.AwaitStuck {
 				c.Violation("stop-stuck", "StopAndWait never returned", map[string]any{"round": describe(rd), "goroutines": dump})
